@@ -46,12 +46,16 @@ type pwDist struct {
 	unit     float64
 	off      float64
 	lob, hib float64
+	scale    float64 // 0 or 1: none; otherwise the whole distribution is stretched by this power of two (exactly)
 	calls    int
 }
 
 func (d *pwDist) CDF(x float64) float64 {
 	d.calls++
 	x -= d.off
+	if d.scale != 0 {
+		x /= d.scale
+	}
 	n := len(d.bp)
 	if x < float64(d.bp[0].X) {
 		return 0
@@ -63,7 +67,12 @@ func (d *pwDist) CDF(x float64) float64 {
 	a, b := d.bp[i], d.bp[i+1]
 	return float64(a.Hi)/d.unit + float64(b.Lo-a.Hi)/d.unit*((x-float64(a.X))/float64(b.X-a.X))
 }
-func (d *pwDist) Bounds() (float64, float64) { return d.lob + d.off, d.hib + d.off }
+func (d *pwDist) Bounds() (float64, float64) {
+	if d.scale != 0 {
+		return d.lob * d.scale, d.hib * d.scale
+	}
+	return d.lob + d.off, d.hib + d.off
+}
 
 // discDistW offers a pure-jump piecewise CDF as a stats.DiscreteDist (unit lattice).
 type discDistW struct{ pwDist }
@@ -113,6 +122,23 @@ func invcdfReplay(in io.Reader, raw bool, args []string) (*Summary, error) {
 				sum.viol("panic", c, "panic: %v", r)
 			}
 		}()
+		// the same distribution stretched by 2^400: its quantiles are finite numbers beyond 1e100, which the bracket search
+		// reaches by doubling just as it reaches 1e6 (the search gives up only at the infinities)
+		if nCase%3 == 1 {
+			sc := math.Ldexp(1, 400)
+			d := &pwDist{bp: ic.BP, unit: float64(ic.Unit), lob: float64(ic.LoB), hib: float64(ic.HiB), scale: sc}
+			inv := stats.InvCDF(d)
+			for yi, q := range ic.Q {
+				y := float64(yi+1) / float64(ic.Unit)
+				want := new(big.Rat).Mul(big.NewRat(q[0], q[1]), ratF(sc))
+				got := inv(y)
+				sum.Checks++
+				// (tolerance relative to the stretch: the stretched CDF itself resolves x only to 2^-52 of 2^400)
+				if math.IsInf(got, 0) || math.IsNaN(got) || !closeRat(got, want, 1e-9*sc, 1e-9) {
+					sum.viol("InvCDF-huge", c, "distribution stretched by 2^400: InvCDF(%v)=%.15g want %.15g", y, got, rf(want))
+				}
+			}
+		}
 		for _, off := range []float64{0, 1e6, -1e6, 12345.678} {
 			d := &pwDist{bp: ic.BP, unit: float64(ic.Unit), off: off, lob: float64(ic.LoB), hib: float64(ic.HiB)}
 			inv := stats.InvCDF(d)
@@ -172,6 +198,41 @@ func invcdfReplay(in io.Reader, raw bool, args []string) (*Summary, error) {
 				sum.Checks++
 				if got := inv(y); !closeRat(got, big.NewRat(q[0], q[1]), 1e-12, 1e-9) {
 					sum.viol("InvCDF-discrete", c, "DiscreteDist wrapper: InvCDF(%v)=%.15g want %d/%d", y, got, q[0], q[1])
+				}
+			}
+		}
+		// the same pure-jump distribution as a library type: a KDE with the delta kernel over the jump points weighted by the
+		// jump heights is exactly this step function (weighted empirical CDF), so its quantiles are the same
+		if pure && len(ic.BP) >= 2 {
+			var xs, ws []float64
+			for _, b := range ic.BP {
+				if b.Hi > b.Lo {
+					xs, ws = append(xs, float64(b.X)), append(ws, float64(b.Hi-b.Lo))
+				}
+			}
+			if len(xs) >= 1 {
+				for variant := 0; variant < 2; variant++ {
+					smp := stats.Sample{Xs: append([]float64{}, xs...), Weights: append([]float64{}, ws...)}
+					if variant == 1 { // unweighted, every point repeated as often as its weight says, in reverse order
+						smp = stats.Sample{}
+						for i := len(xs) - 1; i >= 0; i-- {
+							for k := 0; k < int(ws[i]); k++ {
+								smp.Xs = append(smp.Xs, xs[i])
+							}
+						}
+					}
+					kd := &stats.KDE{Sample: smp, Kernel: stats.DeltaKernel, Bandwidth: 1}
+					inv := stats.InvCDF(kd)
+					for yi, q := range ic.Q {
+						if yi+1 >= int(ic.Unit) {
+							continue
+						}
+						y := float64(yi+1) / float64(ic.Unit)
+						sum.Checks++
+						if got := inv(y); !closeRat(got, big.NewRat(q[0], q[1]), 1e-12, 1e-9) {
+							sum.viol("InvCDF-KDE", c, "delta-kernel KDE over %v weights %v (variant %d): InvCDF(%v)=%.15g want %d/%d (its CDF there is %v)", xs, ws, variant, y, got, q[0], q[1], kd.CDF(got))
+						}
+					}
 				}
 			}
 		}
